@@ -287,3 +287,14 @@ Ltac eqb_simp :=
       first [ replace (a =? b) with false by (symmetry; apply Z.eqb_neq; lia)
             | replace (a =? b) with true by (symmetry; apply Z.eqb_eq; lia) ]
   end.
+
+(* ------------------------------------------------------------------ the abstraction relation on containers *)
+(* heap state st represents the functional state fs: same ids/data/balances, child links = the
+   tree's shape, parent links = the unique parents, root's parent = NULL, t->root = the root node,
+   same size and serial number, and nothing else is allocated *)
+Definition Rep (st : hstate) (fs : state) : Prop :=
+  rep (hp st) (root fs) None /\ hroot st = root_id (root fs) /\ hsize st = size fs /\
+  hnextid st = nextid fs /\ (forall i, hget (hp st) i <> None -> In i (ids (root fs))).
+
+Lemma Rep_init : Rep hinit init.
+Proof. unfold Rep, hinit, init. cbn. repeat split; auto. intros i H. apply H. reflexivity. Qed.
